@@ -14,10 +14,12 @@ Contents
                                  `H` scaled by `√2`; model of `Circuit.apply_state` for H/X/Y/Z/S/CX/CY/CZ and
                                  of `generate_code_np`
 * `pauliAct`, `inner`          — Pauli operator applied to a vector, inner product
-* `errorList`, `asymErrorSet`  — models of `make_error_list`, `hf_split_element`, `make_asymmetric_error_set`
+* `errorList`, `asymErrorSet`  — models of `make_error_list`, `hf_split_element`, `make_asymmetric_error_set`;
+                                 `sparseToSyms` (canonical string), `asymCond` (the weighted bound)
 * `klCheck`, `listedCheck`, `stabCircImplCheck`
                                — the Boolean obligations evaluated per code in the kernel
-* vector-level evaluations used by the driver (`amps`, `fixes`, `weightEnum`)
+* `runTab`, `codewordTab`, `pauliTab`, `innerA`, `weightEnum`
+                               — the same `applyGate` / `pauliAct`, tabulated after every gate, for the driver
 -/
 import NumqiModel.Scalar
 
